@@ -587,6 +587,95 @@ def handle_errors_violation(levels, fail_on_warning):
     return None if got == want else f"levels={levels} fail_on_warning={fail_on_warning}: exit={got}, expected {want}"
 
 
+# ---- reference strings (parse_reference_path + the assumed urlparse fact of its contract; bounded C20) ------------------------
+
+def reference_strings_cases(tier):
+    frag = ["", "#", "#/components/schemas/Pet", "#/a b", "#%20"]
+    pre = ["", "other.yaml", "./d/c.yaml", "/abs", "//example.com", "//example.com/x", "https://e.com/a", "http:", "?x=1", ";p", "a;p?q",
+           "file:///x", "mailto:x", " ", "#", "\t", " \n"]
+    return [{"ref": p + f} for p in pre for f in frag]
+
+
+def _url_clean(s):
+    """what urlsplit does to the text before splitting: leading C0 controls / spaces stripped, tab / CR / LF removed anywhere"""
+    s = s.lstrip("".join(map(chr, range(0x21))))
+    for b in "\t\r\n":
+        s = s.replace(b, "")
+    return s
+
+
+def reference_strings(case):
+    from urllib.parse import urlparse
+    from openapi_python_client.parser.properties.schemas import parse_reference_path
+    s = case["ref"]
+    u = urlparse(s)
+    c = _url_clean(s)
+    # the library fact the deductive contract assumes
+    if not (u.scheme or u.netloc or u.path or u.params or u.query) and c not in ("", "#" + u.fragment):
+        return f"assumed urlparse fact is false for {s!r}: {u!r}"
+    try:
+        r = parse_reference_path(s)
+    except BaseException as e:  # noqa
+        return f"raised {type(e).__name__}: {e}"
+    if isinstance(r, str) and c not in ("", "#" + r):
+        return f"{s!r} accepted as the local reference {r!r}"
+    return None
+
+
+# ---- httpx boundary: does the real httpx accept the request the generated code builds, in both variants? (bounded C03) -------
+
+def httpx_accepts_violation(kind="binary"):
+    """calls the generated sync_detailed and asyncio_detailed against an httpx.MockTransport and compares what was sent"""
+    import asyncio
+    import io
+    import httpx
+    from . import fragments
+    bodies = {
+        "binary": ({"application/octet-stream": {"schema": {"type": "string", "format": "binary"}}}, "file"),
+        "json": ({"application/json": {"schema": {"type": "object", "properties": {"k": {"type": "integer"}}}}}, "model"),
+        "form": ({"application/x-www-form-urlencoded": {"schema": {"type": "object", "properties": {"k": {"type": "integer"}}}}}, "model"),
+        "multipart": ({"multipart/form-data": {"schema": {"type": "object", "properties": {"k": {"type": "integer"}}}}}, "model"),
+    }
+    content, how = bodies[kind]
+    doc = {"openapi": "3.0.3", "info": {"title": "t", "version": "1"}, "paths": {"/b": {"post": {
+        "operationId": "up", "requestBody": {"content": content}, "responses": {"200": {"description": ""}}}}}}
+    pkg = fragments.generate_package(doc)
+    try:
+        mod = pkg.module("api.default.up")
+        client_mod = pkg.module("client")
+        seen = []
+
+        def handler(request):
+            ct = request.headers.get("content-type", "")
+            seen.append((request.method, request.url.path, ct.split(";")[0], len(request.content) > 0))
+            return httpx.Response(200)
+
+        def body():
+            if how == "file":
+                return pkg.module("types").File(payload=io.BytesIO(b"abc"))
+            return pkg.module("models.up_body").UpBody.from_dict({"k": 1})
+        out = {}
+        try:
+            mod.sync_detailed(client=client_mod.Client(base_url="http://x", httpx_args={"transport": httpx.MockTransport(handler)}), body=body())
+            out["sync"] = seen[-1]
+        except BaseException as e:  # noqa
+            out["sync"] = f"raised {type(e).__name__}: {e}"
+
+        async def go():
+            c = client_mod.Client(base_url="http://x", httpx_args={"transport": httpx.MockTransport(handler)})
+            return await mod.asyncio_detailed(client=c, body=body())
+        try:
+            asyncio.run(go())
+            out["asyncio"] = seen[-1]
+        except BaseException as e:  # noqa
+            out["asyncio"] = f"raised {type(e).__name__}: {e}"
+        if out["sync"] != out["asyncio"] or isinstance(out["sync"], str):
+            return f"{kind} body: blocking variant -> {out['sync']!r}, asyncio variant -> {out['asyncio']!r}"
+        return None
+    finally:
+        pkg.cleanup()
+
+
 # ---- Endpoint.response_type: the annotation names every documented response type (bounded C11 / C04) --------------------------
 
 def response_type_cases(tier):
